@@ -87,6 +87,7 @@ var recOps = []opSpec{
 	{"Add", 2, nil}, {"Sub", 2, nil}, {"Mul", 2, nil}, {"Div", 2, nil}, {"Mul", 2, nil}, // arithmetic glue more often
 	{"Mlgamma", 1, []dy{{1, 1}, {2, 1}, {3, 1}}}, {"GammaP", 1, []dy{{5, 2}, {1, 1}, {9, 8}}},
 	{"BesselI", 1, []dy{{0, 1}, {1, 1}, {1, 2}, {5, 2}}}, {"LogBesselI", 1, []dy{{0, 1}, {2, 1}, {1, 2}}},
+	{"Activate", -1, nil}, {"Activate", -1, nil},
 	{"Vmean", 0, nil}, {"VdotV", 0, nil}, {"Vnorm", 0, nil}, {"SmoothMax", 0, []dy{{2, 1}, {1, 2}}},
 	{"LogSmoothMax", 0, []dy{{2, 1}, {1, 2}}},
 }
@@ -176,7 +177,8 @@ func recordMain(args []string) {
 		rng := rand.New(rand.NewSource(seed*1000003 + int64(tr)))
 		n := 1 + rng.Intn(3)
 		in := inst{Type: []string{"Real64", "Real32"}[rng.Intn(2)], Order: 1 + rng.Intn(2), Mode: "generic",
-			Storage: []string{"dense", "sparse"}[rng.Intn(2)]}
+			Storage: []string{"dense", "sparse"}[rng.Intn(2)],
+			Act:     []string{"setvariable", "variables", "resetset"}[rng.Intn(3)]}
 		const nt = 2
 		nc := 3
 		desc := []regDesc{}
@@ -244,6 +246,12 @@ func recordMain(args []string) {
 				s.A = []int{pick()}
 			case 2:
 				s.A = []int{pick(), pick()}
+			case -1:
+				// re-activation of the temporary as variable i (only once it holds a result, mostly)
+				if !written[r] && rng.Intn(4) != 0 {
+					continue
+				}
+				s.P = []float64{float64(1 + rng.Intn(n))}
 			case 0:
 				ln := 2 + rng.Intn(2)
 				for i := 0; i < ln; i++ {
@@ -273,9 +281,10 @@ func recordMain(args []string) {
 			if sp.par != nil {
 				parf = par.f()
 			}
-			if !domainOK(sp.name, parf, vals, wvals) {
+			if sp.arity >= 0 && !domainOK(sp.name, parf, vals, wvals) {
 				continue
 			}
+			m.stepNo = len(hist) + 1
 			// preview on a scratch receiver: keep magnitudes moderate and all slots finite
 			saved := m.magic[r]
 			m.magic[r] = newReal(in.Type, 0)
@@ -283,6 +292,9 @@ func recordMain(args []string) {
 			m.regs[r] = m.magic[r]
 			var pv jetObs
 			msg := vh.Try(func() {
+				if sp.arity < 0 {
+					return // nothing to preview: a re-activation keeps the value
+				}
 				if err := m.exec(s); err != nil {
 					panic("harness: " + err.Error())
 				}
@@ -298,6 +310,9 @@ func recordMain(args []string) {
 					Nz: []bool{}, Hz: [][]bool{}, Regs: [][]interface{}{}})
 				nev++
 				break
+			}
+			if sp.arity < 0 {
+				pv = jetObs{Val: 1}
 			}
 			if !finite(pv.Val) || math.Abs(pv.Val) > 1e5 || (pv.Val != 0 && math.Abs(pv.Val) < 1e-5) || !pv.slotsFinite() {
 				continue
@@ -356,7 +371,7 @@ func recordMain(args []string) {
 			}
 			nev++
 			tout.Put(ev)
-			rec := obsRecord{T: tr, K: nev, Inst: in, N: n, X: numStrs(m.x), Val: numStr(o.Val), Ord: o.Order,
+			rec := obsRecord{T: tr, K: nev, Inst: in, N: n, X: numStrs(trimX(m.x, n)), Val: numStr(o.Val), Ord: o.Order,
 				Nn: o.N, Prog: progString(hist), Op: s.Op}
 			rec.Grad = numStrs(o.Grad)
 			for i := range o.Hess {
